@@ -219,17 +219,15 @@ def run(tier):
     bb, si, s, root = st[0]
     freq_p = param_by_name(bf.body, 'freq')
     v = term_of_operand(bf, s.rv.ops[0]) if s.rv.k == 'use' else None
-    okd = v is not None and v[0] == 'phi'
+    okd = v is not None
     kinds = []
     if okd:
-        for dv, cs, dbb in rules.defs_with_conditions(bf, v[1]):
-            eq = [x for x in cs if isinstance(x[0], tuple) and x[0][0] == 'Eq']
-            is_reset_cmp = bool(eq) and eq[-1][0][1] == ('param', freq_p) and isinstance(eq[-1][0][2], tuple) and eq[-1][0][2][0] == 'field' and eq[-1][0][2][2] == 'frequency' and \
-                peel(eq[-1][0][2][1]) == ('phi', root)
+        chf = ('field', ('phi', root), 'frequency')
+        for dv, cs in rules.value_cases(bf, v, path_conditions(bf, bb)):
             if dv[0] == 'agg' and dv[1].endswith('Option::None'):
-                kinds.append('reset' if is_reset_cmp and rules.cond_true(eq[-1]) else 'bad-none')
+                kinds.append('reset' if rules.implies_order(cs, '==', ('param', freq_p), chf) else 'bad-none')
             elif dv[0] == 'agg' and dv[1].endswith('Option::Some') and dv[2][0][1] == ('param', freq_p):
-                kinds.append('set' if is_reset_cmp and rules.cond_false(eq[-1]) else 'bad-some')
+                kinds.append('set' if rules.implies_order(cs, '!=', ('param', freq_p), chf) else 'bad-some')
             else:
                 kinds.append('other')
     res.require(okd and sorted(kinds) == ['reset', 'set'], 'C10:channel_dl_update:dl-frequency-value',
